@@ -75,8 +75,11 @@ def default_env():
 
 def load(relpath, extra=None, prior=None):
     """exec the lifted module /repo/<relpath>; `prior` = namespaces of modules it imports from"""
+    import warnings
     path = os.path.join(core.REPO, relpath)
-    tree = ast.parse(open(path).read(), filename=path)
+    with warnings.catch_warnings():
+        warnings.simplefilter('ignore')           # docstrings with '\i' etc.
+        tree = ast.parse(open(path).read(), filename=path)
     tree.body = [s for s in tree.body if not isinstance(s, (ast.Import, ast.ImportFrom))]
     tree = ast.fix_missing_locations(_Lift().visit(tree))
     ns = default_env()
@@ -86,7 +89,9 @@ def load(relpath, extra=None, prior=None):
                 ns.setdefault(k, v)
     if extra:
         ns.update(extra)
-    exec(compile(tree, path, 'exec'), ns)
+    with warnings.catch_warnings():
+        warnings.simplefilter('ignore')
+        exec(compile(tree, path, 'exec'), ns)
     return ns
 
 
